@@ -627,3 +627,46 @@ func OSCreate(name string) (*os.File, error) {
 	}
 	return os.Create(name)
 }
+
+// ---- write errors: file size limit -----------------------------------------------
+
+var fsizeLimit int64 // 0 = none
+
+func setFsize(n int64) {
+	var rl syscall.Rlimit
+	if syscall.Getrlimit(syscall.RLIMIT_FSIZE, &rl) != nil {
+		return
+	}
+	if n <= 0 {
+		rl.Cur = rl.Max
+	} else {
+		rl.Cur = uint64(n)
+	}
+	syscall.Setrlimit(syscall.RLIMIT_FSIZE, &rl)
+}
+
+// SetFsizeLimit makes every write that would extend a regular file beyond n
+// bytes fail (EFBIG, a short write first) — a full disk or quota as one actor
+// sees it: the limit is per process, but under the controller only one actor
+// runs at a time, and the controller sets it for the duration of one step.
+// n <= 0 lifts the limit. The worker ignores SIGXFSZ.
+//
+//go:norace
+func SetFsizeLimit(n int64) {
+	fsizeLimit = n
+	setFsize(n)
+}
+
+// WithoutFsizeLimit runs f (harness file operations inside a limited step)
+// without the limit.
+//
+//go:norace
+func WithoutFsizeLimit(f func()) {
+	if fsizeLimit <= 0 {
+		f()
+		return
+	}
+	setFsize(0)
+	f()
+	setFsize(fsizeLimit)
+}
